@@ -20,7 +20,8 @@ RULE = ("room histories from the C07 simulator biased towards ties (equal timest
         "result per input; a single state set, or identical ones, is returned unchanged. "
         "evaluations = resolutions observed; distinct_nontrivial = inputs with >= 2 conflicted "
         "keys for which >= 2 distinct fetch_event traces (= hash-iteration orders / schedules) "
-        "were observed")
+        "were observed. Each input is also resolved once on the worker's long-lived thread, which has served "
+        "every earlier command (other stores, other room versions, the damaged copy of the same store)")
 ASSUMPTIONS = ["the sequence of fetch_event arguments is the externally visible image of the "
                "internal hash iteration order; 'distinct traces seen' measures the orders explored",
                "schedules are sampled (natural RandomState keys, OS thread interleavings), not "
@@ -33,7 +34,7 @@ def layers(tier):
 
 def floors(tier):
     return {"inputs": 800, "resolutions": 30000, "inputs_with_several_traces": 400, "malformed_store_inputs": 100,
-            "single_set_inputs": 50, "_distinct_nontrivial": 300}
+            "single_set_inputs": 50, "complete_store_after_damaged_store": 80, "_distinct_nontrivial": 300}
 
 
 def set_spec(state):
@@ -74,8 +75,23 @@ def shard(ctx):
                 rep.count("malformed_store_inputs")
             cmd = {"op": "resolve_many", "version": str(version), "store": list(store.values()),
                    "state_sets": [set_spec(s) for s in sets], "auth_chains": chains, "reps": reps, "threads": threads,
-                   "permute": True, "seed": rng.randint(0, 2 ** 31)}
+                   "permute": True, "seed": rng.randint(0, 2 ** 31), "inline": True}
             r = w.call(cmd, per_op_timeout=120)
+            if malformed is not None:
+                # the same input with the complete store right after the damaged one, on the same
+                # long-lived thread (and on fresh ones): earlier calls must leave nothing behind
+                again = dict(cmd, store=list(h.store.values()), seed=rng.randint(0, 2 ** 31))
+                r2 = w.call(again, per_op_timeout=120)
+                rep.count("inputs")
+                if not handle_crash(rep, r2, again, context="resolve") and "ok" in r2:
+                    rep.count("resolutions", r2["ok"]["runs"])
+                    rep.judged(r2["ok"]["runs"])
+                    rep.count("complete_store_after_damaged_store")
+                    if len(r2["ok"]["results"]) != 1:
+                        rep.violation("resolution_not_deterministic", "v%d:after-damaged-store" % version,
+                                      {"distinct_results": len(r2["ok"]["results"]), "runs": r2["ok"]["runs"],
+                                       "note": "one run on the thread that resolved the damaged store before, the others on fresh threads",
+                                       "merge_nodes": m}, {"ops": [cmd, again]})
             rep.count("inputs")
             if handle_crash(rep, r, cmd, context="resolve"):
                 continue
